@@ -27,6 +27,28 @@ check("C10", "model_checking",
       "Trusted: the 60-line dict reference (normalisation rules taken from the statement); SQLite itself; lookups with namespace_id=None only probed with the exact stored title.",
       "DESIGN.md §3 C10")
 
+EXH = "bounded exhaustive enumeration of inputs executed on the real implementation against "
+check("C01", "exploration",
+      EXH + "a tree well-formedness oracle: all token strings to length k, template-library strings under every expansion mode, nesting towers to depth 100, one-token mutants of real pages",
+      "Every string of <= 3 (thorough 4; 5 over a core) tokens over a 57-token alphabet covering every alternative of the tokenizer, the same with structural templates under plain/pre_expand/expand_all/additional_expand, towers of 18 constructs to depth 100 and (thorough) every single-token deletion and structural insertion in the three real pages is parsed; the result must be a ROOT tree satisfying the full shape oracle with no parser state left. Nothing is sampled inside the bound.",
+      "Trusted: the shape oracle in vmc/treeutil.py. Inputs containing the package's private-use placeholder code points are outside the alphabet (see C15 / K01).",
+      "DESIGN.md §3 C01")
+check("C02", "exploration",
+      EXH + "a reference nesting model (section stack + marker-prefix list stack) written from the statement",
+      "All documents of <= 3 (thorough 4) lines over 38 line kinds x 12 balanced fillers, plus heading-only and marker-only sequences to length 6, are parsed and the extracted skeleton (parent section/item of every heading, item and filler, item markers, list identity, rule position) must equal the model's.",
+      "Trusted: the 50-line reference model and the skeleton extractor.",
+      "DESIGN.md §3 C02")
+check("C15", "exploration",
+      EXH + "an independent entity table and a delete-the-comment metamorphic oracle",
+      "Every nowiki content of <= 3 tokens (thorough 4 over a core) in 5 embeddings, through expand() and parse(), must come back exactly quoted, decode to the original, stay a single text node and trigger no expansion; every x<!--c-->y over the token alphabet must equal the input with the comment deleted. Placeholder-code-point inputs run under the watchdog.",
+      "Trusted: own copy of the documented entity table; c contains no '&'. Comments whose content opens a nowiki are outside the domain (ambiguous in the statement).",
+      "DESIGN.md §3 C15")
+check("C19", "exploration",
+      EXH + "a parse -> to_wikitext -> parse metamorphic oracle under a block-boundary-whitespace normal form, incl. every self-standing sub-tree and children list",
+      "All documents of 1..2 (thorough 3) blocks over 17 block templates with every inline expression of nesting depth <= 2 in the slots; t2 must equal t1 in normal form, the second trip must be a fixed point, link counts must not change, and every sub-tree/children list passed directly must reparse to itself.",
+      "Trusted: the normal form (strips whitespace only at block boundaries and around heading titles).",
+      "DESIGN.md §3 C19")
+
 NOT_APPLICABLE = {}
 for i in range(1, 21):
     pid = "C%02d" % i
